@@ -1034,27 +1034,36 @@ fn parse_r6rs_char<'de, R: Read<'de> + ?Sized>(
         scratch.push(initial);
         scratch.push(next);
         read.discard();
+        let mut at_end_of_input = true;
         while let Some(next) = read.peek()? {
             if is_delimiter(next) {
+                at_end_of_input = false;
                 break;
             }
             scratch.push(next);
             read.discard();
         }
-        match scratch.as_slice() {
-            b"nul" => Ok('\x00'),
-            b"alarm" => Ok('\x07'),
-            b"backspace" => Ok('\x08'),
-            b"tab" => Ok('\t'),
-            b"linefeed" => Ok('\n'),
-            b"newline" => Ok('\n'),
-            b"vtab" => Ok('\x0B'),
-            b"page" => Ok('\x0C'),
-            b"return" => Ok('\r'),
-            b"esc" => Ok('\x1B'),
-            b"space" => Ok(' '),
-            b"delete" => Ok('\x7F'),
-            _ => error(read, ErrorCode::InvalidCharacterConstant),
+        const NAMES: &[(&[u8], char)] = &[
+            (b"nul", '\x00'),
+            (b"alarm", '\x07'),
+            (b"backspace", '\x08'),
+            (b"tab", '\t'),
+            (b"linefeed", '\n'),
+            (b"newline", '\n'),
+            (b"vtab", '\x0B'),
+            (b"page", '\x0C'),
+            (b"return", '\r'),
+            (b"esc", '\x1B'),
+            (b"space", ' '),
+            (b"delete", '\x7F'),
+        ];
+        match NAMES.iter().find(|(name, _)| *name == scratch.as_slice()) {
+            Some((_, c)) => Ok(*c),
+            // At the end of input, the beginning of a name may still be completed
+            None if at_end_of_input && NAMES.iter().any(|(name, _)| name.starts_with(scratch)) => {
+                error(read, ErrorCode::EofWhileParsingCharacterConstant)
+            }
+            None => error(read, ErrorCode::InvalidCharacterConstant),
         }
     }
 }
